@@ -768,6 +768,11 @@ def _fed_by_children(f, cond, depth=0):
         return False
     for nm in set(x.id for x in ast.walk(cond) if isinstance(x, ast.Name) and x.id in f.locals):
         vals = [v for (_, v) in name_defs(f, nm) if isinstance(v, ast.AST)]
+        # a flag set inside a loop over some `.children` (`only_punct = False` for a child that is no punctuation)
+        for (nid_, _) in name_defs(f, nm):
+            if isinstance(nid_, int) and any(f.cfg.nodes[l_].kind == 'iter' and 'children' in unparse(f.cfg.nodes[l_].ast.iter)
+                                             for l_ in f.cfg.nodes[nid_].loops):
+                return True
         for st in walk_own(f.node):
             if isinstance(st, ast.Assign) and len(st.targets) == 1 and isinstance(st.targets[0], ast.Subscript) \
                     and isinstance(st.targets[0].value, ast.Name) and st.targets[0].value.id == nm:
